@@ -2068,6 +2068,19 @@ void sm9_z256_point_add_affine(SM9_Z256_POINT *R, const SM9_Z256_POINT *P, const
 	sm9_z256_modp_mont_sqr(T1, Z1);
 	sm9_z256_modp_mont_mul(H, X2, T1);
 	sm9_z256_modp_sub(H, H, X1);
+
+	// same x coordinate: the formulas below degenerate; P == Q is a doubling, P == -Q gives infinity
+	if (sm9_z256_is_zero(H) && !sm9_z256_is_zero(Z1)) {
+		sm9_z256_modp_mont_mul(T1, T1, Z1);
+		sm9_z256_modp_mont_mul(S2, Y2, T1);
+		if (sm9_z256_equ(S2, Y1)) {
+			sm9_z256_point_dbl(R, P);
+		} else {
+			sm9_z256_point_set_infinity(R);
+		}
+		return;
+	}
+
 	sm9_z256_modp_add(Z3, Z1, H);
 	sm9_z256_modp_mont_sqr(Z3, Z3);
 	sm9_z256_modp_sub(Z3, Z3, T1);
